@@ -162,3 +162,9 @@ def costs_as_given(case):
     if salt % 3 == 1:
         costs = [int(c) if float(c).is_integer() else c for c in costs]
     return costs
+
+
+def warn_flag(case):
+    """`warn=` as given by the caller: on for a third of the cases (every call site sits inside catch_warnings; a
+    warning is never a verdict, but the code that decides whether to warn runs)."""
+    return (case.get("R", 0) + case.get("H", 0) + 2 * len(case.get("ref", ()))) % 3 == 0
